@@ -74,7 +74,7 @@ from types import TracebackType
 from typing import BinaryIO
 
 from dulwich.object_format import SHA1
-from dulwich.objects import ObjectID
+from dulwich.objects import ZERO_SHA, ObjectID
 from dulwich.refs import (
     SYMREF,
     Ref,
@@ -1182,8 +1182,9 @@ class ReftableRefsContainer(RefsContainer):
         except KeyError:
             current = None
 
-        # A None old_ref means "set unconditionally"
-        if old_ref is not None and current != bytes(old_ref):
+        # A None old_ref means "set unconditionally", the zero id "must
+        # not exist yet"
+        if old_ref is not None and (current or ZERO_SHA) != bytes(old_ref):
             return False
 
         # Update ref
@@ -1226,7 +1227,7 @@ class ReftableRefsContainer(RefsContainer):
             current = None
 
         # A None old_ref means "delete unconditionally"
-        if old_ref is not None and current != bytes(old_ref):
+        if old_ref is not None and (current or ZERO_SHA) != bytes(old_ref):
             return False
 
         self._write_ref_update(bytes(name), REF_VALUE_DELETE, b"")
